@@ -169,7 +169,7 @@ def main():
     if prop in special.CHECKS:
         result = special.CHECKS[prop](prop, tier, seed)
     else:
-        result = standard_check(prop, tier, seed, widen=not proof_ok)
+        result = standard_check(prop, tier, seed, widen=not proof_ok, race=(prop == 'C08'))
 
     violations = []      # (line, replay dict)
     known = load_known()
